@@ -176,7 +176,7 @@ def gen_sequence(seed, i):
         if t < 0.5 or j not in constructed:
             spell = rng.choice(["2d", "2d", "1d", "list"])
             ops.append(dict(op="construct", i=j, D=insts[j]["D"], options=gen_overrides(rng, insts[j]["D"], with_runs), spell=spell,
-                            no_options=rng.random() < 0.08))
+                            no_options=rng.random() < 0.08, x0_on_bound=rng.random() < 0.3))
             constructed.add(j)
         elif t < 0.62:
             bad = rng.choice(["max_fun_eval", "MaxIter", "tolmesh", "random-seed", "display ", "nsearch", "tol_mesh_", "useroptionz"])
@@ -232,6 +232,8 @@ def execute(seq):
             if k == "construct_bad":
                 user[op["bad"]] = 1
             x0 = np.linspace(-0.5, 0.5, D).reshape(1, D)
+            if op.get("x0_on_bound"):
+                x0[0, 0] = -5.0        # on the hard bound: the constructor moves it inside (a copy, never the caller's array)
             lb, ub = -5.0 * np.ones((1, D)), 5.0 * np.ones((1, D))
             plb, pub = -2.0 * np.ones((1, D)), 2.0 * np.ones((1, D))
             sp = op.get("spell", "2d")
